@@ -109,6 +109,76 @@ class Graphs(ChainBuild):
         return None
 
 
+class NameMode(ChainBuild):
+    """persistence by config name (parameter_mode=False) builds the chain by another route (no second pass that
+    re-creates the tasks): the same declarations give the same tasks and the same input edges as in parameter mode, and
+    cyclic or dangling declarations fail in this mode as well.  Runtime check only (the chain model is parameter mode)."""
+    name = 'name_mode_graph'
+    model = ''
+
+    def corpus(self):
+        from ..suites_chain import K
+        base = {'name': 'm', 'data': {'tasks': ['@M.*']}}
+        mk = lambda classes: dict(classes=classes, files={}, base=base, context=None)
+        ring = lambda n: [dict(K(i, f'R{i}', meta_inputs=[{'name': f'r{(i + 1) % n}'}]), name=f'r{i}') for i in range(n)]
+        return [
+            # cycles that no task without inputs leads to: two tasks feeding each other, a ring, a task that is its own input
+            mk(ring(2) + [dict(K(2, 'Src'), name='src'), dict(K(3, 'Sink', meta_inputs=[{'cls': 2}]), name='sink')]),
+            mk(ring(3)),
+            mk([dict(K(0, 'Self', meta_inputs=[{'name': 'self'}]), name='self'), dict(K(1, 'Other'), name='other')]),
+            # a cycle below a root, and an acyclic control
+            mk([dict(K(0, 'Root'), name='root'), dict(K(1, 'A', meta_inputs=[{'cls': 0}, {'name': 'b'}]), name='a'),
+                dict(K(2, 'B', meta_inputs=[{'name': 'a'}]), name='b')]),
+            mk([dict(K(0, 'Root'), name='root'), dict(K(1, 'A', meta_inputs=[{'cls': 0}]), name='a'),
+                dict(K(2, 'B', meta_inputs=[{'cls': 1}, {'cls': 0}]), name='b')]),
+            mk([dict(K(0, 'A', meta_inputs=[{'name': 'ghost'}]), name='a')]),
+        ]
+
+    def run_impl(self, case):
+        def build(mode):
+            with pl.workspace(case) as (d, mod):
+                try:
+                    chain = pl.build_config(case, mod).chain(parameter_mode=mode)
+                except CONSTRUCTION_ERRORS as e:
+                    return dict(error=type(e).__name__, text=str(e)[:150])
+                ins = {n: sorted((k, (v.fullname if hasattr(v, 'fullname') else 'default')) for k, v in t.input_tasks.items())
+                       for n, t in chain.tasks.items()}
+                import networkx as nx
+                return dict(tasks=sorted(chain.tasks), inputs=ins, acyclic=bool(nx.is_directed_acyclic_graph(chain.graph)))
+        return dict(param=build(True), name=build(False))
+
+    def oracle(self, case, obs):
+        if 'unexpected_exception' in obs:
+            return f'unexpected exception {obs["unexpected_exception"]}: {obs["text"]}'
+        from ..gen_pipeline import ref_chain, Unsure
+        try:
+            exp = ref_chain(case)
+        except Unsure:
+            return None
+        except (KeyError, IndexError, ValueError, AttributeError, TypeError):
+            return None
+        p, n = obs['param'], obs['name']
+        if isinstance(exp, tuple):
+            reason = exp[1]
+            if (reason == 'cycle' or 'not found' in reason) and 'error' not in n:
+                return (f'the declarations are invalid ({reason}) and chain construction with parameter_mode=False succeeded'
+                        + ('' if n.get('acyclic', True) else ' with a cyclic graph'))
+            return None
+        if 'error' in p or 'error' in n:
+            return None
+        if not n['acyclic']:
+            return 'the chain built with parameter_mode=False has a cyclic graph'
+        if n['tasks'] != p['tasks']:
+            return f'parameter_mode=False gives the tasks {n["tasks"]}, parameter mode {p["tasks"]}'
+        return None
+
+    def encode(self, case, obs):
+        return '', ''
+
+    def nontrivial(self, case, obs):
+        return 'error' in obs.get('param', {}) or len(obs.get('param', {}).get('tasks', [])) >= 2
+
+
 class SharedAcrossChains(Multi):
     """task objects shared between the chains of a MultiChain that mount their pipeline under different namespaces:
     in every member chain the inputs of every task are the tasks of that chain's own mounting (values and
@@ -124,7 +194,7 @@ class SharedAcrossChains(Multi):
 
 class C08(Prop):
     pid = 'C08'
-    suites = [Graphs(), SharedAcrossChains()]
+    suites = [Graphs(), SharedAcrossChains(), NameMode()]
     trusted_base = ['networkx (DiGraph, ancestors, descendants, has_path, DAG test) is tied to the model\'s own proved '
                     'closure functions by the correspondence',
                     'import strings are resolved by the harness (import_by_string is not modelled); input patterns are '
